@@ -130,6 +130,7 @@ class Sim:
         self.stats = collections.Counter()
         self.depths = collections.Counter()
         self.copies, self.copy_log = [], {}      # copies made by the current step; step index -> [(new, origin)]
+        self.last_reject, self.reject_idx = False, set()    # driver lines that must be refused (not model commands)
 
     # -- class helpers
     def chain(self, k):
@@ -261,8 +262,41 @@ class Sim:
     def step(self):
         rng = self.rng
         kind = rng.choices(
-            ['new', 'scalar', 'objarg', 'hold', 'ret', 'fetch', 'release', 'prop', 'del', 'unload', 'void'],
-            [18, 10, 8, 8, 20, 6, 6, 8, 15, 1, 3 if self.void_path else 0])[0]
+            ['new', 'scalar', 'objarg', 'hold', 'ret', 'fetch', 'release', 'prop', 'del', 'unload', 'void', 'badscalar'],
+            [18, 10, 8, 8, 20, 6, 6, 8, 15, 1, 3 if self.void_path else 0, 3])[0]
+        self.last_reject = False
+        if kind == 'badscalar':
+            # a row or column ARRAY where the C++ signature takes a scalar: the generated .m guards test only the class of the
+            # argument, so the call reaches the gateway, which must refuse it (matlab.h: checkScalar) — no C++ entity runs, no
+            # state changes.  Not a model command: the observation is judged directly (main loop).
+            cands = [e for e in self.ents if e['kind'] in ('method', 'static', 'func') and not e.get('effect') and not self.has_sibling(e)
+                     and (e.get('ret') is None or gen_iface.scalar_ret(e['ret'])) and e['params']
+                     and all(p[0] in ('int', 'double', 'size_t', 'string') for p in e['params'])
+                     and any(p[0] in ('int', 'double', 'size_t') for p in e['params'])]
+            rng.shuffle(cands)
+            for e in cands:
+                dself = []
+                if e['kind'] == 'method':
+                    hs = [h for h in self.usable(e['cls']) if self.owner_of(self.handles[h]['cls'], e['name'], ('method',)) == e['cls']]
+                    if not hs:
+                        continue
+                    dself = ['h%d' % rng.choice(hs)]
+                g = self.gen_args(e['params'], allow_defaults=False)
+                if g is None:
+                    continue
+                dtok = list(g[0])
+                j = rng.choice([i for i, p_ in enumerate(e['params']) if p_[0] in ('int', 'double', 'size_t')])
+                dtok[j] = rng.choice(['m1x3:4,5,6', 'm3x1:7,8,9', 'm1x2:1,2', 'm2x1:3,4'])
+                if e['kind'] == 'method':
+                    dline = 'call %s %s' % (e['name'], ' '.join(dself + dtok))
+                elif e['kind'] == 'static':
+                    dline = 'static %s %s %s' % (self.classes[e['cls']]['matlab'], e['name'], ' '.join(dtok))
+                else:
+                    dline = 'func %s %s' % (e['qname'], ' '.join(dtok))
+                self.last_reject = True
+                self.stats['array_for_scalar_parameter'] += 1
+                return ([dline], [])
+            return None
         if kind == 'new':
             e = rng.choice([e for e in self.ents if e['kind'] == 'ctor'])
             g = self.gen_args(e['params'], overloaded=self.has_sibling(e))
@@ -476,6 +510,8 @@ def gen_history(U, seed, nops, void_path=True, void_ns=False):
         if r:
             dlines += r[0]
             mcmds += r[1]
+            if sim.last_reject:
+                sim.reject_idx.add(len(dlines) - 1)
         if sim.copies:
             if r:
                 sim.copy_log[len(dlines) - 1] = list(sim.copies)
@@ -593,6 +629,24 @@ def main():
                     got_copies[len(impl)] = [tuple(int(x) for x in c.split('<')) for c in l[7:].split(',') if c]
                 elif not l.startswith('end '):
                     impl.append(l)
+            # operations that must be refused: exactly one `error=` observation, nothing reached C++; they are not model commands
+            rejected_ok = True
+            dl_all = dl
+            if sim.reject_idx:
+                keep, new_first, new_dl = [], [], []
+                for k in range(len(first_obs)):
+                    lo, hi = first_obs[k], first_obs[k + 1] if k + 1 < len(first_obs) else len(impl)
+                    if k in sim.reject_idx:
+                        if not (hi - lo >= 1 and all(o.startswith('error=') for o in impl[lo:hi])):
+                            rejected_ok = False
+                            failures.append((tag, 'a row/column array passed for a SCALAR parameter was accepted (the C++ entity did not receive the supplied '
+                                                  'argument values): operation `%s` observed as %s' % (dl[k], impl[lo:hi])))
+                    else:
+                        new_first.append(len(keep))
+                        keep += impl[lo:hi]
+                        new_dl.append(dl[k])
+                new_dl += [l for k, l in enumerate(dl) if k >= len(first_obs) and k not in sim.reject_idx]
+                dl, impl, first_obs = new_dl, keep, new_first
             bad = supplied_values_oracle(dl, impl, first_obs)
             if bad:
                 failures.append((tag, bad))
@@ -603,7 +657,7 @@ def main():
                          min(len(got_flat), len(want_flat)))
                 k = next((k for k in sorted(sim.copy_log) if j < sum(len(sim.copy_log[q]) for q in sim.copy_log if q <= k)), None)
                 failures.append((tag, 'a returned copy is not a copy of the declared source (serial<origin): call %s made copies %s, declared %s'
-                                 % (dl[k] if k is not None and k < len(dl) else '?', got_flat[j:j + 4], want_flat[j:j + 4])))
+                                 % (dl_all[k] if k is not None and k < len(dl_all) else '?', got_flat[j:j + 4], want_flat[j:j + 4])))
             endl = [l for l in out if l.startswith('end ')]
             steps += len(obs)
             if impl != obs:
@@ -612,7 +666,7 @@ def main():
                 failures.append((tag, 'step %d differs\n   impl : %s\n   model: %s\n   op   : %s' % (
                     k, impl[k] if k < len(impl) else '<missing>', obs[k] if k < len(obs) else '<missing>',
                     mc[k] if k < len(mc) else '?')))
-            if rc != 0:
+            if rc != 0 and not (rc == 3 and sim.reject_idx and rejected_ok and not any(o.startswith('error=') for o in impl)):
                 failures.append((tag, 'driver exit code %d: %s' % (rc, err[-1500:])))
             elif args.asan and ('AddressSanitizer' in err or 'runtime error' in err or 'LeakSanitizer' in err):
                 failures.append((tag, 'sanitizer report: ' + err[-1500:]))
